@@ -38,6 +38,12 @@
 (*            character names, HLSL reference "Grammar/Identifiers", GLSL  *)
 (*            4.60 3.7); GLSL 3.7 in addition: no "gl_" prefix and no two  *)
 (*            consecutive underscores (both are reserved).                 *)
+(*  implres   MSL (C++14 [lex.name]/3): a declared spelling does not       *)
+(*            contain a double underscore and does not begin with an       *)
+(*            underscore followed by an upper-case letter (such identifiers*)
+(*            are reserved to the implementation for any use).  Stated for *)
+(*            MSL only; GLSL's double-underscore rule is part of `legal`;  *)
+(*            HLSL's reference does not state such a rule.                 *)
 (*  reserved  a declared spelling is not in Reserved(lang) - the           *)
 (*            independent lists data/c16/reserved-<lang>.txt (keywords,    *)
 (*            reserved words, built-in type names); HLSL: a few words      *)
@@ -102,6 +108,12 @@ LegalIdent(lg, cs) ==
   /\ lg = "glsl" =>
         /\ ~(Len(cs) >= 3 /\ cs[1] = 103 /\ cs[2] = 108 /\ cs[3] = 95)            \* gl_
         /\ \A i \in 1..(Len(cs) - 1) : ~(cs[i] = 95 /\ cs[i + 1] = 95)            \* __
+
+\* C++14 [lex.name]/3 (MSL is C++14 based): reserved to the implementation for any use
+ImplReserved(lg, cs) ==
+  /\ lg = "msl"
+  /\ \/ \E i \in 1..(Len(cs) - 1) : cs[i] = 95 /\ cs[i + 1] = 95
+     \/ Len(cs) >= 2 /\ cs[1] = 95 /\ cs[2] >= 65 /\ cs[2] <= 90
 
 IsReserved(lg, name, cs, ns) ==
   \/ name \in Words(lg)
@@ -169,7 +181,8 @@ Declare ==
          v1 == IF stack = <<>> \/ Ev.id # Len(spell) + 1
                THEN <<Bad("harness: declaration outside any scope or ids not sequential", Ev.name)>> ELSE <<>>
          v2 == IF ~LegalIdent(lang, Ev.cs) THEN <<Bad("legal", Ev.name)>> ELSE <<>>
-         v3 == IF IsReserved(lang, Ev.name, Ev.cs, Ev.ns) THEN <<Bad("reserved", Ev.name)>> ELSE <<>>
+         v3 == (IF IsReserved(lang, Ev.name, Ev.cs, Ev.ns) THEN <<Bad("reserved", Ev.name)>> ELSE <<>>)
+               \o (IF ImplReserved(lang, Ev.cs) THEN <<Bad("implres", Ev.name)>> ELSE <<>>)
          v4 == IF \E o \in top : o.name = Ev.name /\ Conflict(lang, o, d) THEN <<Bad("clash", Ev.name)>> ELSE <<>>
      IN  /\ bad' = bad \o v1 \o v2 \o v3 \o v4
          /\ stack' = IF stack = <<>> THEN stack ELSE [stack EXCEPT ![Len(stack)] = @ \cup {d}]
